@@ -37,4 +37,16 @@ PROPS = {
         rule="each run: 1-8 keys, replay cache on/off, timeout T in {50ms,1s,7s,59s}, 1-4 probes; per probe a content class (random length, truncation offset, bit-flip offset class, bad address type, later-chunk corruption, replay) and a client behaviour (idle, FIN at k/10 of T, trickle then idle); clock-tick injection in half of the runs; non-trivial = at least one probe verdict decided; distinct = distinct (event-log hash, schedule fingerprint)",
         real=["service.streamHandler (handleConnection, absorbProbe, proxyConnection), authenticator, ReplayCache, StreamServe; outline-sdk shadowsocks"],
         stub=COMMON_STUB, assumptions=COMMON_ASSUME + ["RST is modelled as in Linux: closing a socket with unread inbound data resets the peer"]),
+    "C03": dict(
+        scenarios=[dict(name="c03", quick=3000, thorough=300000, quick_budget_s=150, thorough_budget_s=1800)],
+        level_text="Seeded exploration: 1-6 (thorough: up to 12) UDP clients send valid / unconfigured-key / wrong-key / random / truncated / bad-address / disallowed-destination datagrams through the real PacketHandler over the simulated UDP stack with loss, duplication and reordering; a reference model walks the datagrams in the order the proxy socket actually read them and every datagram the proxy emitted (ground-truth ledger) is matched, decrypted and compared: forwarded-only-if-authenticated, payload and destination intact, replies under the association key with the true source address and fresh salts. Sampling, not proof.",
+        rule="each run: 1-8 universe keys (random subset configured), 1-3 targets (IPv4/IPv6) that answer 0-2 times (sizes 0..65487, sometimes from a third address), 1-6 clients x 1-6 datagrams of the kinds above with payloads 0..65000; faults: loss/dup/delay-reorder on every hop; non-trivial = at least one association in the reference model; distinct = distinct (event-log hash, schedule fingerprint)",
+        real=["service.packetHandler.Handle, findAccessKeyUDP, validatePacket, natmap, natconn, timedCopy; cipherList; shared packet listener; outline-sdk shadowsocks Pack/Unpack on both sides; socks address codec"],
+        stub=COMMON_STUB, assumptions=COMMON_ASSUME),
+    "C04": dict(
+        scenarios=[dict(name="c04", quick=3000, thorough=300000, quick_budget_s=150, thorough_budget_s=1800)],
+        level_text="Same run shape as C03, association oracles: per client address one stable outbound source socket, never shared between client addresses, every datagram arriving at that source address (from the contacted target or from a third party) relayed to exactly that client, and the number of outbound sockets equal to the number of authenticated first datagrams with an allowed destination in the reference model. Sampling, not proof.",
+        rule="as C03 (clients sharing an IP with different ports, different IPs, different keys, same key; several targets; replies from strangers); non-trivial = at least one association; distinct = distinct (event-log hash, schedule fingerprint)",
+        real=["service.packetHandler.Handle, natmap (Get/Add/del), natconn, timedCopy; shared packet listener"],
+        stub=COMMON_STUB, assumptions=COMMON_ASSUME + ["associations do not expire inside a run of this scenario (5 min timeout, no port-53 traffic); expiry is C14's scenario"]),
 }
